@@ -21,6 +21,8 @@ POS_PARAMS = {'epsilon', 'consumptions', 'x'}
 POS_ATTRS = {'index_to_key'}
 
 L, P, LS, LD, PA = 'label', 'position', 'set-of-labels', 'label-keyed', 'positional-array'
+#: the positions 0 .. n-1 of the alternatives
+_N_ALTS = re.compile(r'range\((number_of_alternatives|len\(self\.alternatives\)|self\.number_of_alternatives|len\(self\.index_to_key\))\)')
 
 
 class Sorts:
@@ -110,7 +112,41 @@ class Sorts:
         if isinstance(e, ast.DictComp):
             if self.sort(e.key) == L:
                 return LD
+        # a list with one entry per alternative in the order of the positions: [v for _ in range(n)], [f(k) for k in index_to_key], [v] * n
+        if isinstance(e, ast.ListComp) and len(e.generators) == 1 and not e.generators[0].ifs:
+            it = e.generators[0].iter
+            if _N_ALTS.fullmatch(unparse(it)) or unparse(it) in ('self.index_to_key', 'enumerate(self.index_to_key)'):
+                return PA
+        if isinstance(e, ast.BinOp) and isinstance(e.op, ast.Mult):
+            for lst, k in ((e.left, e.right), (e.right, e.left)):
+                if isinstance(lst, ast.List) and len(lst.elts) == 1 and _N_ALTS.fullmatch(f'range({unparse(k)})'):
+                    return PA
+        if isinstance(e, ast.Call) and call_name(e) in ('np.array', 'np.asarray', 'array', 'asarray', 'list', 'tuple') and len(e.args) >= 1 and self.sort(e.args[0]) == PA:
+            return PA
         return None
+
+    def is_counter(self, e: ast.AST) -> bool:
+        """a name bound only as the counter of enumerate(...) / range(...) loops of the function: never None"""
+        if not isinstance(e, ast.Name):
+            return False
+        ok = False
+        for n in ast.walk(self.f.node):
+            if isinstance(n, ast.Name) and n.id == e.id and isinstance(n.ctx, (ast.Store, ast.Del)):
+                ok = True
+                if id(n) not in self._counters():
+                    return False
+        return ok
+
+    def _counters(self) -> set:
+        if not hasattr(self, '_counter_ids'):
+            self._counter_ids = set()
+            for n in ast.walk(self.f.node):
+                if isinstance(n, (ast.For, ast.comprehension)) and isinstance(n.iter, ast.Call) and isinstance(n.iter.func, ast.Name):
+                    if n.iter.func.id == 'range' and isinstance(n.target, ast.Name):
+                        self._counter_ids.add(id(n.target))
+                    elif n.iter.func.id == 'enumerate' and isinstance(n.target, ast.Tuple) and n.target.elts and isinstance(n.target.elts[0], ast.Name):
+                        self._counter_ids.add(id(n.target.elts[0]))
+        return self._counter_ids
 
     def _loop_sorts(self, target: ast.AST, it: ast.AST) -> list[tuple[str, str | None]]:
         """(name, sort or None) for every name bound by iterating `it` into `target`"""
@@ -123,7 +159,7 @@ class Sorts:
                 out[target.id] = L
             elif s == PA and t == 'self.index_to_key':
                 out[target.id] = L
-            elif re.fullmatch(r'range\((number_of_alternatives|len\(self\.alternatives\)|self\.number_of_alternatives|len\(self\.index_to_key\))\)', t):
+            elif _N_ALTS.fullmatch(t):
                 out[target.id] = P
         elif isinstance(target, ast.Tuple) and len(target.elts) == 2 and all(isinstance(x, ast.Name) for x in target.elts):
             a, b = target.elts
@@ -261,6 +297,14 @@ def _show(o) -> str:
     return f'the reverse of {_show(o[1])}'
 
 
+def _by_position(k: ast.expr) -> bool:
+    """the sort key `lambda item: self.key_to_index[item[0]]` of (label, value) pairs: the position of the label"""
+    if not (isinstance(k, ast.Lambda) and len(k.args.args) == 1 and not k.args.defaults and not k.args.vararg and not k.args.kwonlyargs and not k.args.kwarg):
+        return False
+    a = k.args.args[0].arg
+    return unparse(k.body) == f'self.key_to_index[{a}[0]]'
+
+
 def _neutral(v: ast.expr) -> bool:
     if isinstance(v, ast.Constant) and v.value is None:
         return True
@@ -312,6 +356,10 @@ def _epsilon_scaling(ctx: Ctx) -> None:
             continue
         per = {}
         for name, m in c.methods.items():
+            if getattr(m.node, '_verif_transparent', False):
+                continue  # a new helper all of whose calls were expanded in place: examined where it is called
+            # a new helper that is still called: what its parameter `epsilon` receives (the scaled term or not) is decided by its callers
+            new_helper = getattr(m.node, '_verif_new_helper', False)
             eps = {p for p in m.positional_params() if p in ('epsilon', 'unscaled_epsilon')}
             if not eps:
                 continue
@@ -359,7 +407,7 @@ def _epsilon_scaling(ctx: Ctx) -> None:
             arith = [x for x in stmts if (isinstance(x, ast.BinOp) and isinstance(x.op, (ast.Add, ast.Sub, ast.Mult)) and (is_eps(x.left) or is_eps(x.right))) or
                      (isinstance(x, ast.AugAssign) and isinstance(x.op, (ast.Add, ast.Sub)) and is_eps(x.value))]
             if arith:
-                per[name] = (True if scaled else (None if unclear else False), m, arith[0])
+                per[name] = (True if scaled else (None if unclear or new_helper else False), m, arith[0])
         sibs = sorted(k for k, v in per.items() if v[0])
         for name, (scaled, m, where) in sorted(per.items()):
             n += 1
@@ -414,16 +462,19 @@ def run(ctx: Ctx) -> None:
                 elif isinstance(n, ast.UnaryOp) and isinstance(n.op, ast.Not):
                     tests = [n.operand]
                 for t in tests:
-                    if st.sort(t) in (L, P):
+                    # the contradiction is a LABEL (or the optional position of the outside good) read as present / absent: a label
+                    # may be 0.  A counter tested for zero (`if rank` = not the first one) says nothing about labels.
+                    if st.sort(t) == L or unparse(t) == 'self.outside_good_index':
                         ctx.add('C18.R1', f'{f.qualname}:truth({unparse(t)})', False, (f.file, getattr(t, 'lineno', f.line)),
                                 f'{unparse(t)} ({st.sort(t)}) is tested for truth: the {st.sort(t)} 0 counts as absent (an alternative labelled 0, or in first position, is treated as if there were none); the test for absence is `is None`',
                                 'truth', positive=True)
+                    elif st.sort(t) == P and not st.is_counter(t):
+                        ctx.add('C18.R1', f'{f.qualname}:truth({unparse(t)})', None, (f.file, getattr(t, 'lineno', f.line)),
+                                f'{unparse(t)} (position) is tested for truth: a test for the position 0 or a test for absence? not resolved', 'truth')
                 if isinstance(n, ast.Subscript):
                     cs = st.sort(n.value)
                     is_ = st.sort(n.slice)
                     base = unparse(n.value)
-                    if base.split('.')[-1] in ('bounds', 'initial_guess') and is_ is not None:
-                        cs = PA
                     if cs in (LD, PA) and is_ in (L, P):
                         n_sub += 1
                         ok = (cs == LD and is_ == L) or (cs == PA and is_ == P)
@@ -454,9 +505,15 @@ def run(ctx: Ctx) -> None:
                                         src = unparse(it)
                                         if isinstance(it, ast.Call) and call_name(it) == 'sorted' and it.args and isinstance(it.args[0], ast.Call) and call_name(it.args[0]) == 'items' and st.sort(it.args[0].func.value) == LD:
                                             n_sub += 1
-                                            ctx.add('C18.R1', f'{f.qualname}:{karg}<-{kvalue.id}', False, (f.file, d.lineno),
-                                                    f'{kvalue.id} lists the values of a label-keyed dictionary in the order of the sorted labels and is passed as the positional array `{karg}`: '
-                                                    f'positions follow index_to_key, not sorted labels', detail=src)
+                                            # sorted(d.items()) with nothing else is the order of the labels; with a key= / reverse= the order is whatever that argument says
+                                            plain = len(it.args) == 1 and not it.keywords and isinstance(it.func, ast.Name)
+                                            if len(it.args) == 1 and isinstance(it.func, ast.Name) and len(it.keywords) == 1 and it.keywords[0].arg == 'key' and _by_position(it.keywords[0].value):
+                                                ctx.add('C18.R1', f'{f.qualname}:{karg}<-{kvalue.id}', True, (f.file, d.lineno), f'{kvalue.id} is sorted by the position key_to_index[label]: it follows index_to_key', src)
+                                                continue
+                                            ctx.add('C18.R1', f'{f.qualname}:{karg}<-{kvalue.id}', False if plain else None, (f.file, d.lineno),
+                                                    (f'{kvalue.id} lists the values of a label-keyed dictionary in the order of the sorted labels and is passed as the positional array `{karg}`: '
+                                                     f'positions follow index_to_key, not sorted labels') if plain else
+                                                    f'{kvalue.id} lists the values of a label-keyed dictionary in an order given by `{src[:80]}` and is passed as the positional array `{karg}`: that order is not resolved', detail=src)
                                         elif src in ('self.index_to_key', 'enumerate(self.index_to_key)'):
                                             n_sub += 1
                                             ctx.add('C18.R1', f'{f.qualname}:{karg}<-{kvalue.id}', True, (f.file, d.lineno), f'{kvalue.id} follows index_to_key', src)
